@@ -38,9 +38,9 @@ GRIDS = {
 
 INVARIANTS = {
     "C01": ["TypeOK", "C01"],
-    "C02": ["TypeOK", "C02"],
-    "C03": ["TypeOK", "C03"],
-    "C04": ["TypeOK", "C04", "C04Cover", "C04First", "C04NoInvent"],
+    "C02": ["TypeOK", "C02", "AbsInv"],
+    "C03": ["TypeOK", "C03", "AbsInv"],
+    "C04": ["TypeOK", "C04", "C04Cover", "C04First", "C04NoInvent", "SegSame"],
     "C08": ["TypeOK", "C08", "FlushCandidateKept", "NoSurprise"],
 }
 
@@ -455,6 +455,36 @@ def constructor_grid(core):
     return tot, acc, fails
 
 
+def apalache_obligations(V, wd):
+    """Init => IndInv, IndInv /\\ Next => IndInv', IndInv => Safe on TokenizerInt with symbolic parameters."""
+    import shutil as _sh
+    from .common import SPEC
+    _sh.copy(os.path.join(SPEC, "TokenizerInt.tla"), wd)
+    obligations = [("base", ["--init=Init", "--inv=IndInv", "--length=0"]),
+                   ("step", ["--init=IndInit", "--inv=IndInv", "--length=1"]),
+                   ("safe", ["--init=IndInit", "--inv=Safe", "--length=0"])]
+    done = 0
+    detail = {}
+    for name, args in obligations:
+        t0 = time.time()
+        try:
+            p = subprocess.run(["apalache-mc", "check", "--cinit=CInit", *args, f"--out-dir={wd}/apalache_{name}", "TokenizerInt.tla"],
+                               cwd=wd, capture_output=True, text=True, timeout=600)
+            out = p.stdout[-400:]
+            ok = "EXITCODE: OK" in p.stdout
+            bad = "EXITCODE: ERROR (12)" in p.stdout
+        except subprocess.TimeoutExpired:
+            ok, bad, out = False, False, "timeout"
+        detail[name] = {"ok": ok, "wall_s": round(time.time() - t0, 1)}
+        if bad:
+            raise MachineryError(f"Apalache found a counterexample to obligation {name} of TokenizerInt (the abstraction is wrong): {out}")
+        done += 1 if ok else 0
+    V.leg("unbounded", tool="apalache-mc 0.58", module="TokenizerInt", obligations=len(obligations), discharged=done, detail=detail,
+          checker_cmd="apalache-mc check --cinit=CInit --init=Init|IndInit --inv=IndInv|Safe --length=0|1 TokenizerInt.tla")
+    V.cov["obligations"] = len(obligations)
+    V.cov["discharged"] = done
+
+
 def check(prop, tier, replay=None):
     core_mod = import_auditok() and __import__("auditok.core", fromlist=["x"])
     util_mod = __import__("auditok.util", fromlist=["x"])
@@ -485,6 +515,10 @@ def check(prop, tier, replay=None):
         if dead:
             raise MachineryError(f"leg M {gname}: actions never taken (vacuous model): {dead}")
     V.cov["exhaustive"] = True
+
+    # ---- unbounded: inductive invariant of the integer abstraction, discharged by Apalache (thorough tier) -------------
+    if prop in ("C02", "C03") and (tier == "thorough" or os.environ.get("VERIF_APALACHE")):
+        apalache_obligations(V, wd)
 
     # ---- leg R ---------------------------------------------------------------------------
     t0 = time.time()
